@@ -1,14 +1,19 @@
 #!/bin/bash
-# tools/rerun_seeded.sh [id ...] : apply each archived seeded change to /repo, run the quick check of its property,
-# print the verdict lines, undo. Default: all of /verif/seeded. Exit 1 if one is not reported with exit 1.
+# tools/rerun_seeded.sh [id ...] : for each archived seeded change, apply it to a PRIVATE scratch worktree of /repo HEAD,
+# run the quick check of its property against that worktree (PYTHONPATH override; /repo itself is not touched, no evidence
+# is written), print the verdict lines. Default: all of /verif/seeded. Exit 1 if one is not reported with exit 1.
+# (The registered commands of MANIFEST.json never set PYTHONPATH: they read /repo.)
 cd /verif
 ids="$@"; [ -z "$ids" ] && ids=$(ls seeded)
+wt=/tmp/rerun_wt_$$
+git -C /repo worktree add -q $wt HEAD || exit 9
+trap "git -C /repo worktree remove --force $wt" EXIT
 rc_all=0
 for s in $ids; do
   p=$(jq -r .property seeded/$s/meta.json)
-  git -C /repo apply /verif/seeded/$s/patch.diff || { echo "== $s PATCH DOES NOT APPLY"; rc_all=1; continue; }
-  out=$(./check $p --no-evidence 2>&1); rc=$?
-  git -C /repo checkout -- .
+  git -C $wt checkout -q -- .
+  git -C $wt apply /verif/seeded/$s/patch.diff 2>/dev/null || git -C $wt apply -C1 /verif/seeded/$s/patch.diff || { echo "== $s PATCH DOES NOT APPLY"; rc_all=1; continue; }
+  out=$(PYTHONPATH=$wt/src ./check $p --no-evidence 2>&1); rc=$?
   echo "== $s ($p) exit=$rc $(echo "$out" | grep -cE '^VIOLATION') violation line(s), $(echo "$out" | grep -E '^VIOLATION' | grep -vc no-failing-input-found) replayed natively"
   echo "$out" | grep -E "^VIOLATION" | head -2 | cut -c1-260
   [ $rc -ne 1 ] && rc_all=1
